@@ -9,7 +9,7 @@ from fractions import Fraction
 from ..gen.ledger import Opts, gen_ledger
 from ..model import hmrc
 from ..probe import probe
-from ..util import rng_for, sha, fr, dstr, iso, d as pdate, is_terminating, ZERO, ONE, TOL_10DP, TOL_FINE
+from ..util import cap_viols, rng_for, sha, fr, dstr, iso, d as pdate, is_terminating, ZERO, ONE, TOL_10DP, TOL_FINE
 from . import ledger_core as lc
 
 PROP = "C10"
@@ -254,7 +254,7 @@ def run_twin(desc):
             viols.append(x)
         if len(samples) < 2 and not vs and len(base) <= 8 and "ok" in oa:
             samples.append({"with_splits": lc.brief(base), "post_split_units": lc.brief(twin)})
-    return {"evaluations": len(reqs), "nontrivial_hashes": hashes, "counters": cnt, "violations": viols[:20], "samples": samples}
+    return {"evaluations": len(reqs), "nontrivial_hashes": hashes, "counters": cnt, "violations": cap_viols(viols), "samples": samples}
 
 
 def run_pair(desc):
@@ -308,7 +308,7 @@ def run_pair(desc):
             viols.append(x)
         if len(samples) < 1 and not vs and len(var) <= 9 and "ok" in oa:
             samples.append({"ledger_with_cancelling_pair": lc.brief(var)})
-    return {"evaluations": len(reqs), "nontrivial_hashes": hashes, "counters": cnt, "violations": viols[:20], "samples": samples}
+    return {"evaluations": len(reqs), "nontrivial_hashes": hashes, "counters": cnt, "violations": cap_viols(viols), "samples": samples}
 
 
 def run_shard(desc):
